@@ -45,7 +45,10 @@ def make(case):
         data = ctx.bytes("b", n)
         if cut is not None:
             data = data[:cut]
-        if based:
+        if based == "any":
+            p = ctx.int("p", 0, 1 << 20)
+            si, sc = ctx.based_stream(data, p), ctx.based_stream(data, p)
+        elif based:
             A = (I.alignment or 1) if cfg["align"] else 1
             q = ctx.int("q", 0, (1 << 20) // A)
             si, sc = ctx.based_stream(data, q * A), ctx.based_stream(data, q * A)
@@ -179,6 +182,12 @@ def make_offsets(case):
     return run
 
 
+def _has_named_struct(T):
+    named = []
+    R.collect_named(T, named)
+    return sum(1 for N in named if N[0] in ("struct", "union")) > 1
+
+
 def cases(tier, seed):
     for i, plan in enumerate(OFFSET_PLANS):
         for e in "<>":
@@ -199,3 +208,9 @@ def cases(tier, seed):
         yield dict(c, cfg=cfg)
         if len(seen) % 3 == 0 or (tier != "quick" and "|" not in c["label"]):
             yield dict(c, cfg=cfg, based=True, label=c["label"] + "@p")
+        if _has_named_struct(c["T"]) and (tier != "quick" or len(seen) % 2 == 0 or "|" not in c["label"]):
+            # the nested named structures come from an earlier load() with the other alignment mode, and the structure is
+            # parsed at an arbitrary stream position (an aligned structure then pads differently than its size suggests)
+            yield dict(c, cfg=dict(cfg, inner_align=not cfg["align"]), based="any", label=c["label"] + "~mixed@any")
+            if cfg["align"]:
+                yield dict(c, cfg=cfg, based="any", label=c["label"] + "@any")
